@@ -20,11 +20,11 @@ PLANS = {
                 thorough=[("wsexh", 196, "k=2"), ("wsexh", 2744, "k=3"), ("wsexh", 38416, "k=4"), ("wsrand", 6000, ""), ("repoint", 600, ""), ("tlcws", 100000, "k=4"),
                           ("lag", 3000, ""), ("endwatch", 2000, "")]),
     "C05": dict(engine=INO, mc=["MC_Sched", "MC_SchedLive"], also_lin=True,
-                quick=[("lag", 300, ""), ("close", 100, ""), ("stall", 40, ""), ("ovfstall", 2, "")],
-                thorough=[("lag", 5000, ""), ("close", 2000, ""), ("stall", 600, ""), ("ovfstall", 12, "")]),
+                quick=[("lag", 300, ""), ("close", 100, ""), ("stall", 40, ""), ("ovfstall", 1, "mode=calls"), ("ovfstall", 1, "mode=close"), ("readfault", 40, ""), ("recerr", 40, "")],
+                thorough=[("lag", 5000, ""), ("close", 2000, ""), ("stall", 600, ""), ("ovfstall", 12, ""), ("readfault", 600, ""), ("recerr", 600, "")]),
     "C06": dict(engine=INO, mc=["MC_Sched"], also_lin=True,
-                quick=[("close", 300, ""), ("lag", 100, ""), ("ovfstall", 1, "mode=close")],
-                thorough=[("close", 5000, ""), ("lag", 1500, ""), ("ovfstall", 12, "")]),
+                quick=[("close", 300, ""), ("lag", 100, ""), ("ovfstall", 1, "mode=close"), ("readfault", 30, ""), ("recerr", 20, "")],
+                thorough=[("close", 5000, ""), ("lag", 1500, ""), ("ovfstall", 12, ""), ("readfault", 400, ""), ("recerr", 300, "")]),
     "C08": dict(engine=INO, mc=["MC_Events"],
                 quick=[("spell", 240, ""), ("burst", 24, "ks=17+240+700"), ("rand", 150, ""), ("repoint", 80, "")],
                 thorough=[("spell", 4000, ""), ("burst", 300, "ks=17+240+2049"), ("rand", 3000, ""), ("repoint", 1000, "")]),
@@ -32,8 +32,8 @@ PLANS = {
                 quick=[("lag", 200, ""), ("endwatch", 200, ""), ("rand", 150, ""), ("wsrand", 100, ""), ("repoint", 80, "")],
                 thorough=[("lag", 4000, ""), ("endwatch", 4000, ""), ("rand", 3000, ""), ("wsrand", 2000, ""), ("repoint", 1000, "")]),
     "C10": dict(engine=INO, mc=["MC_Sched"],
-                quick=[("lag", 200, ""), ("rand", 100, ""), ("overflow", 1, "extra=6"), ("ovflate", 2, ""), ("ovfstall", 1, ""), ("readfault", 30, ""), ("recurse", 100, "")],
-                thorough=[("lag", 5000, ""), ("rand", 3000, ""), ("overflow", 3, "extra=1+6+4000"), ("ovflate", 12, ""), ("ovfstall", 6, "")]),
+                quick=[("lag", 200, ""), ("rand", 100, ""), ("overflow", 1, "extra=6"), ("ovflate", 2, ""), ("ovfstall", 1, ""), ("readfault", 30, ""), ("recurse", 100, ""), ("recerr", 30, "")],
+                thorough=[("lag", 5000, ""), ("rand", 3000, ""), ("overflow", 3, "extra=1+6+4000"), ("ovflate", 12, ""), ("ovfstall", 6, ""), ("readfault", 600, ""), ("recurse", 2000, ""), ("recerr", 400, "")]),
     "C11": dict(engine=INO, mc=["MC_Events"],
                 quick=[("moves", 300, ""), ("parmoves", 60, ""), ("multix", 20, "")],
                 thorough=[("moves", 8000, ""), ("moves", 1000, "depth=80"), ("parmoves", 1500, ""), ("multix", 300, "")]),
@@ -49,17 +49,17 @@ PLANS = {
 }
 
 PLANS["C19"] = dict(engine=INO, mc=[],
-                    quick=[("recurse", 300, "")],
-                    thorough=[("recurse", 8000, "")])
+                    quick=[("recurse", 300, ""), ("recerr", 30, "")],
+                    thorough=[("recurse", 8000, ""), ("recerr", 400, "")])
 _KQ = dict(engine="kq", driver="kqrun", trace_spec="KqueueTrace", mc=["MC_Kq"],
            assumptions=["the kqueue backend is the working tree's source compiled on Linux against a simulated kqueue (harness/simkq/unix): real descriptors on a real "
                         "directory tree, NOTE_* raised per operation as FreeBSD's vop_*_post hooks do, all notes of one operation raised atomically",
                         "the simulation is calibrated against the repository's recorded kqueue expectations (testdata); behaviour of a real BSD kernel is not observed",
                         "quiescence is detected from goroutine states and the simulator's pending-knote count"])
-PLANS["C17"] = dict(_KQ, quick=[("kqdir", 250, ""), ("kqsym", 60, ""), ("kqcycle", 6, "n=100"), ("kqburst", 20, ""), ("kqfault", 30, ""), ("kqnested", 40, "")],
-                    thorough=[("kqdir", 6000, ""), ("kqsym", 1500, ""), ("kqcycle", 30, "n=1000"), ("kqburst", 300, ""), ("kqfault", 400, ""), ("kqnested", 1000, "")])
-PLANS["C18"] = dict(_KQ, quick=[("kqdir", 300, ""), ("kqsym", 60, ""), ("kqburst", 40, ""), ("kqnested", 60, "")],
-                    thorough=[("kqdir", 8000, ""), ("kqsym", 1500, ""), ("kqburst", 600, ""), ("kqnested", 1500, "")])
+PLANS["C17"] = dict(_KQ, quick=[("kqdir", 250, ""), ("kqsym", 60, ""), ("kqcycle", 6, "n=100"), ("kqburst", 20, ""), ("kqfault", 30, ""), ("kqkfault", 40, ""), ("kqnested", 40, ""), ("kqseq", 60, ""), ("kqdot", 30, "")],
+                    thorough=[("kqdir", 6000, ""), ("kqsym", 1500, ""), ("kqcycle", 30, "n=1000"), ("kqburst", 300, ""), ("kqfault", 400, ""), ("kqkfault", 600, ""), ("kqnested", 1000, ""), ("kqseq", 1500, ""), ("kqdot", 500, "")])
+PLANS["C18"] = dict(_KQ, quick=[("kqdir", 300, ""), ("kqsym", 60, ""), ("kqburst", 40, ""), ("kqnested", 60, ""), ("kqseq", 120, ""), ("kqdot", 40, "")],
+                    thorough=[("kqdir", 8000, ""), ("kqsym", 1500, ""), ("kqburst", 600, ""), ("kqnested", 1500, ""), ("kqseq", 3000, ""), ("kqdot", 800, "")])
 PLANS["C15"] = dict(engine="ops")
 PLANS["C16"] = dict(engine="ops")
 PLANS["C20"] = dict(engine="diff")
